@@ -15,7 +15,8 @@ from ..core import Check, ERR
 from ..c02_util import (LAYOUTS, SHAPES, SHAPE_BY_NAME, USER_FNS, EFFECT_TEXT, Gen, bracket_last_line, expr_from_json,
                         expr_to_json, gen_grouping, gen_request, gen_rule, has_eval, matcher_lines, model_req,
                         model_text, run_real, spec_req, sub_conditions, tokens_of, value_desc, value_from_desc,
-                        wire_tok, depth_of, R, P, S, EQ, AND, CMP_TEXT, SUBS, OBJS, run_real_seq, world_oracle_reqs, world_text)
+                        wire_tok, depth_of, R, P, S, EQ, AND, CMP_TEXT, SUBS, OBJS, run_real_seq, world_oracle_reqs, world_text,
+                        ts_cases, ts_judge)
 
 PROP = "C02"
 F_BRACKET = "C02-continuation-bracket-line"
@@ -722,6 +723,54 @@ m = g(r.sub.name, p.sub, r.sub.tenant.id) && p.dom == "7" && r.obj == p.obj && r
     chk.extra.setdefault("strata", {})["names_evals_domains"] = n
 
 
+def stratum_matcher_text_shapes(chk):
+    """matcher TEXTS of unusual shape, judged at implementation level against the meaning of the documented operators
+    (c02_util.ts_*: a small expression tree with its own renderer and evaluator):
+      (a) stacked negations - !!x, !!!x, ! !x, !(!x), mixed - of calls, comparisons and parenthesised combinations, first / in
+          the middle / last among other conjuncts, with and without blanks around && and ||; the same inside rule texts run
+          through eval() (and in front of eval() itself);
+      (b) user-registered functions whose NAMES contain the library's own keywords (acl_eval, retrieval, g_of, p_owner, is_in,
+          not_banned, order_ok ...), in the ACL-with-superuser matcher, without blanks, negated, beside a real eval() and called
+          from an eval() rule text;
+      (c) the EMPTY policy under every such matcher (the matcher judged once with every p.<field> = ''), before the first rule
+          is added and after the last one was removed, on ONE enforcer.
+    SPEC: a rule takes part exactly when the expression is true of request and rule (allow-override)."""
+    import random as _random
+    rng = _random.Random(chk.seed * 131 + 20261002)
+    cases = ts_cases(rng, 60 if chk.tier == "quick" else 1500)
+    n, parts, reported = 0, {}, set()
+    for c in cases:
+        k, fails_ = ts_judge(c)
+        n += k
+        parts[c["part"]] = parts.get(c["part"], 0) + 1
+        chk.count(("matcher-text-shapes", c["matcher"], json.dumps(c["phases"])), n=k)
+        if fails_ and c["part"] not in reported:
+            reported.add(c["part"])
+            pi, q, got, want = fails_[0]
+            small = dict(c, phases=c["phases"][:pi + 1], requests=[q] if q is not None else c["requests"][:1], failing_phase=pi,
+                         rules_at_failure=c["phases"][pi])
+            chk.spec_fail(small, got, want, "the decision is not the value of the matcher expression as written (" + c["part"] +
+                          "; negation is the documented unary !, a user function is called by the name it was registered under, an "
+                          "empty policy judges the matcher once against empty rule fields)")
+    chk.traces += len(cases)
+    st = chk.extra.setdefault("strata", {})
+    st["matcher_text_shapes_cases"] = len(cases)
+    st["matcher_text_shapes_requests"] = n
+    for k_, v in parts.items():
+        st["matcher_text_shapes: " + k_] = v
+
+
+def stratum_role_calls(chk):
+    """the role function asked more than once per rule (two request fields; subject and object in one graph) or with a
+    domain taken from the rule, over digit names that are prefixes / concatenations of each other: a rule takes part exactly
+    when the matcher is true with g = reachability over the stored role assignments (enforce_cases.role_calls_stratum, the
+    family C01/C08 judge under every effect; here allow-override, decision through enforce and enforce_ex)"""
+    from ..enforce_cases import role_calls_stratum, EFFECTS
+    n = role_calls_stratum(chk, "a rule took part in (or stayed out of) the decision although the matcher - with every g(a, b[, dom]) call "
+                                "evaluated as reachability of b from a over the stored role assignments - says otherwise", effects=EFFECTS[:1])
+    chk.extra.setdefault("strata", {})["role_calls_requests"] = n
+
+
 def observe_case(c):
     sh, ast, subs, reqs, text = case_parts(c)
     obs, stored = run_real(text, sh, c["rules"], c["grouping"], c["user_fns"], reqs, c.get("etype"))
@@ -950,6 +999,8 @@ def run(chk, n_asts, maxdepth, vm_n, nonconst_n):
     stratum_confusable_names(chk, 40)
     stratum_role_manager_owned_links(chk)
     stratum_names_evals_domains(chk)
+    stratum_matcher_text_shapes(chk)
+    stratum_role_calls(chk)
     # the hypotheses of C02_pipeline_tokens(_ast) hold on the generated cases (wf_tokens, admissible), and
     # Gallina's render agrees with the harness renderer
     hyp = [c for c in tok_cases if c.get("gaps")]
@@ -1005,7 +1056,7 @@ def run(chk, n_asts, maxdepth, vm_n, nonconst_n):
     chk.extra["sub_conditions_non_constant"] = chk.extra.get("sub_conditions_non_constant", 0) + sub_nonconst
 
     strata.update(seq_counts)
-    chk.extra["strata"] = strata
+    chk.extra["strata"] = dict(chk.extra.get("strata", {}), **strata)     # keep the counts the strata functions recorded themselves
     chk.extra["evaluations_per_shape"] = shapes_seen
     chk.extra["exception_classes_compared"] = {str(k_): v for k_, v in sorted(exc_classes.items())}
     chk.extra["layouts"] = LAYOUTS
@@ -1040,6 +1091,25 @@ def replay(chk):
             print(f"VIOLATION property={chk.prop} replay={chk.replay_file}")
             sys.exit(1)
         print("replay passes: the stratum reports nothing on this tree")
+        sys.exit(0)
+    if c.get("stratum") == "matcher-text-shapes":
+        pi = c.get("failing_phase", len(c["phases"]) - 1)
+        _, fails_ = ts_judge(c, only=(pi, c["requests"][0]))
+        print("matcher:", c["matcher"], " rules:", c["phases"][pi], " request:", c["requests"][0])
+        if fails_:
+            print(f"replay: impl={fails_[0][2]} spec={fails_[0][3]}")
+            print(f"VIOLATION property={chk.prop} replay={chk.replay_file}")
+            sys.exit(1)
+        print("replay passes: the decision is the value of the matcher expression on this input")
+        sys.exit(0)
+    if c.get("stratum") == "role-calls":
+        from ..enforce_cases import replay_role_call
+        hit = replay_role_call(c)
+        if hit:
+            print(f"replay: impl={hit[0]} spec={hit[1]}")
+            print(f"VIOLATION property={chk.prop} replay={chk.replay_file}")
+            sys.exit(1)
+        print("replay passes: the decision is that of the rules the matcher is true of")
         sys.exit(0)
     if "lines" not in c or "ast" not in c:
         print("replay file names a broken theorem/correspondence, not an input:", json.dumps(rec.get("broken"))[:800])
